@@ -149,11 +149,14 @@ func Disjoint(a, b []P) bool {
 	return true
 }
 
-// PolygonWithHoles returns a simple CCW outer ring and up to maxHoles CW holes that lie
+// PolygonWithHoles (nil if no simple outer ring could be made) returns a simple CCW outer ring and up to maxHoles CW holes that lie
 // strictly inside it and are pairwise disjoint (all validated exactly). Rings are closed.
 func PolygonWithHoles(r *h.Rand, n int, cx, cy, rmin, rmax, snap float64, maxHoles int) [][]P {
 	var outer []P
-	for outer == nil {
+	for try := 0; outer == nil; try++ {
+		if try > 12 {
+			return nil // e.g. radius below the snap step
+		}
 		outer = SimpleRing(r, n, cx, cy, rmin, rmax, snap)
 		if n > 3 {
 			n--
@@ -186,4 +189,14 @@ func PolygonWithHoles(r *h.Rand, n int, cx, cy, rmin, rmax, snap float64, maxHol
 		}
 	}
 	return rings
+}
+
+// MustPolygonWithHoles is PolygonWithHoles with a plain triangle as fallback, so it never returns nil.
+func MustPolygonWithHoles(r *h.Rand, n int, cx, cy, rmin, rmax, snap float64, maxHoles int) [][]P {
+	if rings := PolygonWithHoles(r, n, cx, cy, rmin, rmax, snap, maxHoles); rings != nil {
+		return rings
+	}
+	rd := math.Max(math.Ceil(rmax), 2)
+	x, y := math.Round(cx), math.Round(cy)
+	return [][]P{{{x - rd, y - rd}, {x + rd, y - rd}, {x, y + rd}, {x - rd, y - rd}}}
 }
